@@ -708,7 +708,42 @@ func runMultipartConcurrency(e *c07Env, round int) {
 			}
 		}(c)
 	}
+	// meanwhile other clients initiate and abort unrelated uploads in the same bucket
+	var sideIDs []string
+	var smu sync.Mutex
+	for c := 0; c < 2; c++ {
+		wg.Add(1)
+		go func(c int) {
+			defer wg.Done()
+			cl := drv.NewTCPClient()
+			defer cl.Close()
+			for i := 0; i < 5; i++ {
+				sk := fmt.Sprintf("mp/side-%d-%d-%d", round, c, i)
+				resp, err := cl.Do("POST", e.tcp.URL(drv.ObjPath(b, sk), "uploads"), nil, nil, 0)
+				var ir drv.InitResult
+				if err != nil || resp.Status != 200 || drv.ParseXML(resp.Body, &ir) != nil {
+					continue
+				}
+				smu.Lock()
+				sideIDs = append(sideIDs, ir.UploadID)
+				smu.Unlock()
+				cl.Do("GET", e.tcp.URL("/"+b, drv.Q("uploads", drv.Bare, "prefix", "mp/")), nil, nil, 0)
+				if i%2 == 0 {
+					cl.Do("DELETE", e.tcp.URL(drv.ObjPath(b, sk), drv.Q("uploadId", ir.UploadID)), nil, nil, 0)
+				}
+			}
+		}(c)
+	}
 	wg.Wait()
+	{
+		seen := map[string]bool{id: true}
+		for _, sid := range sideIDs {
+			if seen[sid] {
+				r.Violation(sig("C07", backendClass(e.kind), "upload-id-duplicate", "concurrent-initiate"), "two concurrent initiates got the same upload id "+sid, nil)
+			}
+			seen[sid] = true
+		}
+	}
 	r.Eval(1)
 	r.Count("multipart_rounds", 1)
 	r.Distinct(fmt.Sprintf("%s|multipart|%d", e.kind, round))
@@ -1138,8 +1173,35 @@ func runGatedPair(e *c07Env, aName, point, bName string, caseNo int) {
 		released = true
 	}
 	_ = released
-	<-doneA
-	<-doneB
+	for _, w := range []struct {
+		ch   chan struct{}
+		name string
+	}{{doneA, aName}, {doneB, bName}} {
+		select {
+		case <-w.ch:
+		case <-time.After(90 * time.Second):
+			// an operation that never returns: look at what its goroutine is doing before calling it a deadlock
+			d1 := allStacks()
+			time.Sleep(5 * time.Second)
+			d2 := allStacks()
+			g1, g2 := handlerGoroutines(d1), handlerGoroutines(d2)
+			verdict := ""
+			for id, st1 := range g1 {
+				if st2, ok := g2[id]; ok && (strings.Contains(st1, "Mutex") || strings.Contains(st1, "semacquire") || strings.Contains(st1, "chan ") || strings.Contains(st1, "select")) && st1[:4] == st2[:4] {
+					verdict = fmt.Sprintf("goroutine %s is parked (%s) in two dumps 5 s apart", id, st2)
+				}
+			}
+			dump := filepath.Join(rep.Root, "out", "C07", fmt.Sprintf("deadlock-%d.txt", time.Now().UnixNano()))
+			os.MkdirAll(filepath.Dir(dump), 0755)
+			os.WriteFile(dump, []byte(d1+"\n\n====== 5 s later ======\n\n"+d2), 0644)
+			if verdict != "" {
+				r.Violation(sig("C07", backendClass(e.kind), "deadlock", aName+"@"+point+"|"+bName), fmt.Sprintf("%s: %s (parked at %s, then released) and %s: operation %s never returned: %s", e.kind, aName, point, bName, w.name, verdict), map[string]interface{}{"goroutine_dumps": dump})
+			} else {
+				r.Inconclusive("an operation of a gated pair did not return within 90 s but its goroutine is not parked; dumps in " + dump)
+			}
+			os.Exit(100 + r.Finish())
+		}
+	}
 	currentGate.Store(nil)
 	if !parked {
 		r.Count("gated_point_not_reached", 1)
